@@ -271,6 +271,9 @@ def run(ctx):
     from . import c13, c15
     borrow(ctx, "C03", c13.rule_index, ctx.py)
     borrow(ctx, "C03", c15.rule_radix_py, ctx.py)
+    # shared clause: the samples handed to the caller are the ones the engine recorded (C09.FETCH-PY)
+    from . import c09 as _c09
+    borrow(ctx, "C03", _c09.rule_fetch_py, ctx.py)
     from .. import lints
     lints.run(ctx, "C03", ctx.py, ["kinetics", "rdsystem"], truth_floor=24)
     ctx.assume("equality with the recorded initial value is decided only as 'never written after Init' "
